@@ -373,6 +373,39 @@ func (c *Case) spec() *encSpec {
 	return s
 }
 
+// encoder returns the encoder handed to NewSlimTrie. The stock encoders have
+// value receivers, so &encode.I32{} is the same encoder as encode.I32{}: the two
+// spellings are used in turn (a deterministic function of the case).
+func (c *Case) encoder() encode.Encoder {
+	e := c.spec().enc
+	if (len(c.Keys)+len(c.Vals))%3 != 1 {
+		return e
+	}
+	switch v := e.(type) {
+	case encode.I8:
+		return &v
+	case encode.I16:
+		return &v
+	case encode.I32:
+		return &v
+	case encode.I64:
+		return &v
+	case encode.U16:
+		return &v
+	case encode.U32:
+		return &v
+	case encode.U64:
+		return &v
+	case encode.Int:
+		return &v
+	case encode.String16:
+		return &v
+	case encode.Bytes:
+		return &v
+	}
+	return e
+}
+
 // typedValues builds the typed slice handed to NewSlimTrie (e.g. []int32), or nil.
 func (c *Case) typedValues() interface{} {
 	if !c.HasVals {
@@ -571,9 +604,9 @@ func (c *Case) build() (*trie.SlimTrie, error) {
 		vals = boxed
 	}
 	if c.Opt == (OptSpec{}) && sel%2 == 0 {
-		return trie.NewSlimTrie(c.spec().enc, c.keys(), vals)
+		return trie.NewSlimTrie(c.encoder(), c.keys(), vals)
 	}
-	return trie.NewSlimTrie(c.spec().enc, c.keys(), vals, c.Opt.opt())
+	return trie.NewSlimTrie(c.encoder(), c.keys(), vals, c.Opt.opt())
 }
 
 // loadTarget is the instance a stream is loaded into: a new empty trie, or
@@ -586,7 +619,7 @@ func loadTarget(c *Case) *trie.SlimTrie {
 }
 
 func emptyTrie(c *Case) *trie.SlimTrie {
-	st, err := trie.NewSlimTrie(c.spec().enc, nil, nil)
+	st, err := trie.NewSlimTrie(c.encoder(), nil, nil)
 	if err != nil {
 		panic(err)
 	}
